@@ -27,7 +27,9 @@ EXPLANATION = (
     "constant or a helper of the file whose every return value is enumerated); (7) every tag byte the "
     "Snappy / LZ4 compressors build by OR-ing shifted fields holds each field inside its slot for every "
     "value the branch conditions on the path admit (forward dataflow of constant upper bounds; a COPY_1 "
-    "element reached with offset 2048 would need a twelfth offset bit). Decides these clauses, not "
+    "element reached with offset 2048 would need a twelfth offset bit); (8) carquet_zstd_compress / _decompress "
+    "against a model of libzstd: OK exactly when the library finished the frame, the caller's extents handed "
+    "over unchanged, and no compression context that the wrapper keeps is left inside an unfinished frame. Decides these clauses, not "
     "the round trip nor sufficiency of the bound formulas.")
 
 SN = "src/compression/snappy.c"
@@ -53,6 +55,10 @@ def run(ctx):
     ctx.clause("C09.3 match offsets fit the emitted offset width")
     ctx.clause("C09.4 reported sizes never exceed the capacity")
     ctx.clause("C09.5 block copies from the output history are no wider than the guarded match distance")
+    ctx.clause("C09.7 the ZSTD wrappers report the library's outcome and leave no reused context inside an unfinished frame")
+    from ..rules import codecwrap
+    codecwrap.check_compress(ctx)
+    codecwrap.check(ctx)
     ctx.clause("C09.6 tag bytes of the hand-written compressors hold every field value their guards admit")
     from ..rules import fieldfit
     nff, nffd = fieldfit.check(ctx, P.funcs_in("src/compression/snappy.c", "src/compression/lz4.c"))
